@@ -1,6 +1,7 @@
 PROP = dict(
     engine="chain", harness="chain", driver="drv_chain",
-    props=["Hostd.Props.C05"],
+    props=["Hostd.Props.C05", "Hostd.Gen.ChainTie"],
+    pregen=[["go", "run", "./chaintable", "{repo}", "{lean}/Hostd/Gen/ChainTable.lean"]],
     shard_extra=[dict(level="store"), dict(level="mgr")],
     driver_args=["c05/"],
     flag_filter=r"^c05/",
